@@ -97,7 +97,6 @@ def run(rep, tier, rng, replay=None):
                 continue
             a, b = BOUNDS[kind]
             fixed = a * L + b
-            scaled = fixed + (512 * z * L if kind in ("raw", "simple") else 0)
             st = stats.setdefault(kind, dict(calls=0, max_bytes=0, max_bytes_per_file_byte=0.0, max_ops=0, max_step_us=0, max_over_fixed_bound=0.0))
             st["calls"] += 1
             st["max_bytes"] = max(st["max_bytes"], me["m"])
@@ -107,12 +106,13 @@ def run(rep, tier, rng, replay=None):
             st["max_step_us"] = max(st["max_step_us"], me["t"])
             st["max_over_fixed_bound"] = round(max(st["max_over_fixed_bound"], me["m"] / float(fixed)), 3)
             desc = None
-            if me["m"] > scaled:
-                desc = ("c09-memory-bound", "peak additional heap %d bytes in %s exceeds %d * %d + %d (+ 512 * %d zero-width records * %d)" % (me["m"], label, a, L, b, z, L))
-            elif me["m"] > fixed:
+            if me["m"] > fixed and z > 0 and kind in ("raw", "simple"):
+                # the regression class of the finding repaired by 803272f: memory grows with the number of zero-width records
                 desc = ("c09-zero-width-amplification",
-                        "peak additional heap %d bytes in %s on a %d-byte file (%.0f x the file) exceeds the fixed bound %d * len + %d: the prototype has %d zero-width record(s), "
-                        "each filled with one 16-byte value per point although it costs no input" % (me["m"], label, L, me["m"] / float(max(L, 1)), a, b, z))
+                        "peak additional heap %d bytes in %s on a %d-byte file (%.0f x the file) exceeds the fixed bound %d * len + %d and the prototype has %d zero-width record(s): "
+                        "values of zero-width records must not be stored" % (me["m"], label, L, me["m"] / float(max(L, 1)), a, b, z))
+            elif me["m"] > fixed:
+                desc = ("c09-memory-bound", "peak additional heap %d bytes in %s exceeds %d * %d + %d" % (me["m"], label, a, L, b))
             elif me["o"] > OPS_PER_PAGE * pages + OPS_CONST:
                 desc = ("c09-device-operations", "%d device operations in %s on a file of %d pages (bound %d * pages + %d)" % (me["o"], label, pages, OPS_PER_PAGE, OPS_CONST))
             elif prof == "release" and max(me["t"], 0) > TIME_LIMIT_US:
@@ -165,7 +165,7 @@ def run(rep, tier, rng, replay=None):
                 kind = "raw" if sec.startswith("raw:") else "bl"
                 z = zero_width_count(toks[5]) if kind == "raw" and toks[5] != "-" else 0
                 a, b = BOUNDS[kind]
-                if me["m"] > a * phys_len + b + 512 * z * phys_len:
+                if me["m"] > a * phys_len + b:
                     n_bad += 1
                     rep.violation("c09-memory-bound", "peak additional heap %d bytes for %s ... (%s) on a %d-byte file" % (me["m"], " ".join(toks[:1] + toks[2:6])[:120], fr["notes"][i], phys_len),
                                   dict(kind="free-descriptor", case=line))
@@ -186,8 +186,8 @@ def run(rep, tier, rng, replay=None):
     rep.cov.update(mutants=len(muts), mutation_kinds=kinds, free_descriptor_cases=len(fr["lines"]),
                    large_bundled_files=[m["base"] for m in res["big"]["muts"]],
                    bounds={k: "%d * len(file) + %d" % v for k, v in BOUNDS.items()},
-                   bounds_note="raw and simple iteration additionally get 512 * (zero-width records) * len(file); exceeding the fixed bound but not this one is reported as c09-zero-width-amplification; "
-                               "device operations per call <= %d * pages + %d; every single call <= %d us (release)" % (OPS_PER_PAGE, OPS_CONST, TIME_LIMIT_US),
+                   bounds_note="the bounds do not depend on the prototype; a raw or simple iteration over a prototype with zero-width records that exceeds its bound is reported as "
+                               "c09-zero-width-amplification (regression probes: hand-built files with 100 and 500 zero-width records), anything else as c09-memory-bound; device operations per call <= %d * pages + %d; every single call <= %d us (release)" % (OPS_PER_PAGE, OPS_CONST, TIME_LIMIT_US),
                    measured=stats, calls_over_a_bound=n_bad, model_runs=n_model, xml_layer_not_modelled=n_skip, correspondence_failures=n_corr,
                    traces_validated_against_impl=n_model + len(fr["lines"]), harness_allocation_limit_bytes=1 << 30)
     if muts:
